@@ -107,3 +107,12 @@ func max0(x int) int {
 	}
 	return x
 }
+
+// seq returns lo..hi.
+func seq(lo, hi int) []int {
+	var r []int
+	for i := lo; i <= hi; i++ {
+		r = append(r, i)
+	}
+	return r
+}
